@@ -18,6 +18,7 @@ type State struct {
 	alloc  T
 	defers []*deferRec
 	dead   bool
+	sym    *symHeaps // non-nil: heaps are bound variables (definition of a recursive spec function)
 }
 
 type deferRec struct {
@@ -48,8 +49,8 @@ type Obligation struct {
 	Pos     string
 	Goal    T
 	PC      T
-	NAssume int  // number of assumptions in scope
-	NDecl   int  // number of declarations in scope
+	NAssume int    // number of assumptions in scope
+	NDecl   int    // number of declarations in scope
 	Expect  string // "unsat" (default) or "sat" for reach/pre-sat covers
 	Text    string // human-readable goal
 	fx      *FuncVC
@@ -100,6 +101,8 @@ type FuncVC struct {
 	regions     []region
 	lastSearch  *searchFact
 	mute        int
+	recDefs     map[string]*recDef
+	defAx       map[int]bool // indices in assumps of quantified definitional axioms (recursive spec functions, pure functions)
 }
 
 func (fx *FuncVC) fresh(hint string, s Sort) T {
@@ -143,6 +146,15 @@ func (fx *FuncVC) assumeRaw(f T) {
 	if f.S == "true" {
 		return
 	}
+	fx.assumps = append(fx.assumps, "(assert "+f.S+")")
+}
+
+// assumeDef adds a quantified definitional axiom.
+func (fx *FuncVC) assumeDef(f T) {
+	if fx.defAx == nil {
+		fx.defAx = map[int]bool{}
+	}
+	fx.defAx[len(fx.assumps)] = true
 	fx.assumps = append(fx.assumps, "(assert "+f.S+")")
 }
 
@@ -246,6 +258,9 @@ func (fx *FuncVC) heapSortElem(leaf Sort) Sort { return SArr(SInt, SArr(fx.idxSo
 
 // heap returns the current term of the named heap, declaring its entry version on first use.
 func (fx *FuncVC) heap(st *State, name string, sort Sort) T {
+	if st.sym != nil {
+		return st.sym.get(name, sort)
+	}
 	if h, ok := st.heaps[name]; ok {
 		return h
 	}
